@@ -212,6 +212,13 @@ impl<L: Lit> Renumber<L> {
         }
 
         for latch in &aig.latches {
+            // A latch state literal defines a variable just like an input or an and-gate output does.
+            if self.lit_map.contains_key(latch.state)
+                || self.defs.contains_key(&latch.state)
+                || self.defs.contains_key(&L::from_code(1 ^ latch.state.code()))
+            {
+                return Err(AigStructureError::LitAlreadyDefined { lit: latch.state });
+            }
             self.last_code += 2;
             self.lit_map
                 .insert(latch.state, L::from_code(self.last_code));
